@@ -44,6 +44,28 @@ type scRun struct {
 	admin *nodePrivilegedService
 	ctx   context.Context
 	lines []scLine
+	holds []scHold
+}
+
+// scHold: the byte slices a call returned, kept until the end of the history and then identified once more
+// (logged as "held" in the call's line): returned bytes must not change under later calls.
+type scHold struct {
+	line int
+	bufs [][]byte
+}
+
+func (r *scRun) hold(bufs ...[]byte) {
+	r.holds = append(r.holds, scHold{line: len(r.lines) - 1, bufs: bufs})
+}
+
+func (r *scRun) identifyHeld() {
+	for _, h := range r.holds {
+		held := []interface{}{}
+		for _, b := range h.bufs {
+			held = append(held, r.w.classify(b))
+		}
+		r.lines[h.line].s["held"] = held
+	}
 }
 
 func (r *scRun) log(ev string, a, s map[string]interface{}) {
@@ -106,6 +128,11 @@ func (r *scRun) get(a map[string]interface{}) {
 		})
 		r.log("Get", map[string]interface{}{"id": id.J(), "via": "db"},
 			map[string]interface{}{"err": errs, "code": code, "res": r.optVal(b, errs == "" && code == "OK")})
+		if errs == "" && code == "OK" {
+			r.hold(b)
+		} else {
+			r.hold()
+		}
 	}
 	// public RPC
 	{
@@ -129,6 +156,11 @@ func (r *scRun) get(a map[string]interface{}) {
 		})
 		r.log("Get", map[string]interface{}{"id": id.J(), "via": "rpc"},
 			map[string]interface{}{"err": errs, "code": code, "res": r.optVal(b, errs == "" && code == "OK")})
+		if errs == "" && code == "OK" {
+			r.hold(b)
+		} else {
+			r.hold()
+		}
 	}
 }
 
@@ -214,28 +246,34 @@ func (r *scRun) govBatch(a map[string]interface{}) {
 	// db
 	{
 		entries := []interface{}{}
+		var bufs [][]byte
 		errs := scGuard(func() error {
 			res, err := r.d.GetGovernanceVAABatch(scGovChain, vaa.Address(ga), cs)
 			for _, g := range res {
 				entries = append(entries, r.entry(g.VaaBytes, g.Sequence, int(g.TargetChain)))
+				bufs = append(bufs, g.VaaBytes)
 			}
 			return err
 		})
 		r.log("GovBatch", map[string]interface{}{"seqs": as, "via": "db"}, map[string]interface{}{"err": errs, "entries": entries})
+		r.hold(bufs...)
 	}
 	// public RPC
 	{
 		entries := []interface{}{}
+		var bufs [][]byte
 		errs := scGuard(func() error {
 			resp, err := r.rpc.GetGovernanceVAABatch(r.ctx, &publicrpcv1.GetGovernanceVAABatchRequest{Sequences: cs})
 			if err == nil {
 				for _, g := range resp.Entries {
 					entries = append(entries, r.entry(g.VaaBytes, g.Sequence, int(g.TargetChain.Number())))
+					bufs = append(bufs, g.VaaBytes)
 				}
 			}
 			return err
 		})
 		r.log("GovBatch", map[string]interface{}{"seqs": as, "via": "rpc"}, map[string]interface{}{"err": errs, "entries": entries})
+		r.hold(bufs...)
 	}
 }
 
@@ -249,6 +287,7 @@ func (r *scRun) nonGovBatch(a map[string]interface{}) {
 		as, cs = []int{}, []uint64{}
 	}
 	entries := []interface{}{}
+	var bufs [][]byte
 	errs := scGuard(func() error {
 		resp, err := r.rpc.GetNonGovernanceVAABatch(r.ctx, &publicrpcv1.GetNonGovernanceVAABatchRequest{
 			EmitterChain: publicrpcv1.ChainID(st.EC), EmitterAddress: hex.EncodeToString(vid.EmitterAddress[:]),
@@ -256,11 +295,13 @@ func (r *scRun) nonGovBatch(a map[string]interface{}) {
 		if err == nil {
 			for _, g := range resp.Entries {
 				entries = append(entries, r.entry(g.VaaBytes, g.Sequence, -1))
+				bufs = append(bufs, g.VaaBytes)
 			}
 		}
 		return err
 	})
 	r.log("NonGovBatch", map[string]interface{}{"st": stJ, "seqs": as, "via": "rpc"}, map[string]interface{}{"err": errs, "entries": entries})
+	r.hold(bufs...)
 }
 
 const scGovChain = vaa.ChainID(1)
@@ -298,6 +339,7 @@ func scRunScenario(base string, sc vhScenario) ([]scLine, error) {
 			return nil, fmt.Errorf("unknown step %q", st.Ev)
 		}
 	}
+	r.identifyHeld()
 	return r.lines, nil
 }
 
